@@ -215,9 +215,29 @@ def replay(task):
     d = os.path.join(root, "r%d" % k)
     repo = Repo(d)
     events, problems = [], []
+    def one(a, b, cwd, flt, tag):
+        rep = repo.report(a, b, cwd, flt)
+        yielded, cwds, raised = query(repo, a, b, cwd, flt)
+        ev = {"tid": "r%d%s-%s-%s-%s-%s" % (k, tag, a, b, cwd or "root", "+".join(flt) if flt else "all"),
+              "report": [{"apath": enc_text(e["apath"]), "bpath": enc_text(e["bpath"]), "ac": e["ac"], "bc": e["bc"]}
+                         for e in rep],
+              "yielded": yielded, "cwd0": enc_text(cwd), "cwds": [enc_text(c) for c in cwds],
+              "_info": {"hist": h["hist"], "a": a, "b": b, "cwd": cwd, "filter": flt, "at": tag or "end",
+                        "report": [[e["status"], e["apath"], e["bpath"], e["ac"], e["bc"]] for e in rep],
+                        "cwds": cwds}}
+        if raised:
+            ev["raised"] = raised
+        events.append(ev)
     try:
-        for a in h["hist"]:
+        ncommits = 1
+        for j, a in enumerate(h["hist"]):
             repo.apply(a)
+            if a["a"] == "commit":
+                ncommits += 1
+            if j < len(h["hist"]) - 1:
+                # the same process asks again while the repository evolves: symbolic refs and the index move
+                for (x, y) in [("HEAD", "INDEX"), ("INDEX", "WT")] + ([("HEAD~1", "HEAD")] if ncommits >= 2 else []):
+                    one(x, y, "", None, "s%d" % j)
         # the model of git must agree with git
         real = {"wt": repo.tree("wt"), "idx": repo.tree("idx"), "HEAD": repo.tree("HEAD")}
         model = {"wt": h["wt"], "idx": h["idx"], "HEAD": h["commits"][-1]}
@@ -233,18 +253,7 @@ def replay(task):
                     n += 1
                     if (k + n) % 3 and flt is not None and cwd == "":
                         continue          # thin out the root+filter combinations
-                    rep = repo.report(a, b, cwd, flt)
-                    yielded, cwds, raised = query(repo, a, b, cwd, flt)
-                    ev = {"tid": "r%d-%s-%s-%s-%s" % (k, a, b, cwd or "root", "+".join(flt) if flt else "all"),
-                          "report": [{"apath": enc_text(e["apath"]), "bpath": enc_text(e["bpath"]), "ac": e["ac"], "bc": e["bc"]}
-                                     for e in rep],
-                          "yielded": yielded, "cwd0": enc_text(cwd), "cwds": [enc_text(c) for c in cwds],
-                          "_info": {"hist": h["hist"], "a": a, "b": b, "cwd": cwd, "filter": flt,
-                                    "report": [[e["status"], e["apath"], e["bpath"], e["ac"], e["bc"]] for e in rep],
-                                    "cwds": cwds}}
-                    if raised:
-                        ev["raised"] = raised
-                    events.append(ev)
+                    one(a, b, cwd, flt, "")
     finally:
         shutil.rmtree(d, True)
         shutil.rmtree(d + "-home", True)
